@@ -13,6 +13,7 @@ def run(pid, tier, replay=None):
         "spline families (s, z, pi) with non-zero flank widths (they are smooth families in the sense of the property's quantifier); values compared exactly when dyadic, else within 2^-13",
         "smooth families (gauss, gauss2, gbell, sig, dsig, psig) and the irrational operator: relational facts on order-coded doubles over a 41-point grid (range, monotone flanks, exact core values, dispatcher = specific function)",
         "gain scheduling: rule base of order 3 with triangular sets and integer consequents, all seven operators, three modes; scratch buffer of A_PID_FUZZY_BFUZZ(2) bytes between canaries",
+        "membership tables: each of the 13 kinds of set as first entry of the e-table (the next kind in the ec-table) followed by two triangles, steep parameters and inputs where every membership is an exact dyadic; expected gains computed from the memberships a_mf reports per entry; buffer of A_PID_FUZZY_BFUZZ(3)",
     ]
     summ, bad, files = pidfuzzy.run_fuzzy(ck, sc, tier)
     if summ is None:
@@ -25,10 +26,12 @@ def run(pid, tier, replay=None):
         if fam in ("mf", "opr", "sweep"):
             ck.violation("trace:%s:%s" % (fam, ev.get("kind", "")), {"what": "TLC rejected the recorded value: range / shape / core / complement / dispatcher / operator law", "event": ev})
             n += 1
-        elif fam == "fpid":
+        elif fam in ("fpid", "fpidk"):
             # gain scheduling and scratch buffer belong to C13 as well
-            ck.violation("trace:fpid:opr%s" % ev.get("opr"), {"what": "TLC rejected the fuzzy controller run: scheduled gains not base + weighted mean of the firing rules' consequents, or buffer overrun", "event": ev})
+            ck.violation("trace:%s:opr%s" % (fam, ev.get("opr")), {"what": "TLC rejected the fuzzy controller run: scheduled gains not base + weighted mean of the firing rules' consequents, or buffer overrun", "event": ev})
             n += 1
+        elif fam != "npid":
+            raise Broken("rejected event of an unknown family %r" % fam)
     ck.part("recorded", **summ)
     ck.part("rejected", count=n)
     ck.cov["evaluations"] = summ["events"]
